@@ -31,6 +31,8 @@ Sl(r) == SlimSeq(Un(r), r.h, r.w)
 NPix(r) == Len(r.u)
 
 Cl(n, ok) == IF ok THEN << >> ELSE << n >>
+\* evaluate e ONCE and hand its value to Body (a LET definition is re-evaluated by TLC at every reference)
+Let1(e, Body(_)) == CHOOSE y \in {Body(x) : x \in {e}} : TRUE
 IsVec(v, n) == Len(v) = n
 IsMat(m, rows, cols) == Len(m) = rows /\ \A a \in 1 .. rows : Len(m[a]) = cols
 IsGVec(v, n) == Len(v) = n /\ \A k \in 1 .. n : Len(v[k]) = 2
@@ -80,23 +82,23 @@ FedOk(r) ==
         /\ r.wgiven = WTable(Sl(r), Bl(r), RealW(Wts(r)))
         /\ r.dirtygiven = Dirty(r.vdonor, Wts(r), Cen(r), Bl(r))
 
+InvValueClauses(r, want) ==
+    LET T == Total(r.objs)
+        K == Len(r.b)
+    IN Cl("class-follows-settings", ClassOk(r))
+       \o Cl("transformed-mapping-matrix-is-forward-transform-of-each-column",
+             r.t = << >> \/ (IsGMat(r.t, K, T) /\ r.t = want.t))
+       \o Cl(DName, IsVec(r.d, T) /\ r.d = want.d)
+       \o Cl(FName, IsMat(r.f, T, T) /\ r.f = want.f)
+       \o Cl("curvature-matrix-symmetric", IsMat(r.f, T, T) /\ \A a \in 1 .. T : \A c \in 1 .. T : r.f[a][c] = r.f[c][a])
+       \o Cl("curvature-matrix-reread-agrees", r.f2 = r.f)
 InvClauses(r) ==
     IF ~ ObjsOk(r) THEN << "malformed-record" >>
-    ELSE LET want == InvWant(r)
-             T == Total(r.objs)
-             K == Len(r.b)
-         IN Cl("input-on-lattice", OnLattice(Cen(r), Bl(r)))
-            \o Cl("input-fed-by-driver-is-consistent", FedOk(r))
-            \o Cl("no-exception", ~ r.raised)
-            \o Cl("values-on-lattice", r.raised \/ ~ r.off)
-            \o (IF r.raised \/ r.off THEN << >>
-                ELSE Cl("class-follows-settings", ClassOk(r))
-                     \o Cl("transformed-mapping-matrix-is-forward-transform-of-each-column",
-                           r.t = << >> \/ (IsGMat(r.t, K, T) /\ r.t = want.t))
-                     \o Cl(DName, IsVec(r.d, T) /\ r.d = want.d)
-                     \o Cl(FName, IsMat(r.f, T, T) /\ r.f = want.f)
-                     \o Cl("curvature-matrix-symmetric", IsMat(r.f, T, T) /\ \A a \in 1 .. T : \A c \in 1 .. T : r.f[a][c] = r.f[c][a])
-                     \o Cl("curvature-matrix-reread-agrees", r.f2 = r.f))
+    ELSE Cl("input-on-lattice", OnLattice(Cen(r), Bl(r)))
+         \o Cl("input-fed-by-driver-is-consistent", FedOk(r))
+         \o Cl("no-exception", ~ r.raised)
+         \o Cl("values-on-lattice", r.raised \/ ~ r.off)
+         \o (IF r.raised \/ r.off THEN << >> ELSE Let1(InvWant(r), LAMBDA want : InvValueClauses(r, want)))
 
 \* signature of an inversion record: call site : noise class : object layout (or what went wrong before any value came back)
 InvSig(r) ==
@@ -125,16 +127,19 @@ DDefects(r, want) ==
 FDefects(r, want) ==
     LET T == Total(r.objs)
     IN IF IsMat(r.f, T, T) /\ r.f # want.f /\ HasUnreg(r) /\ r.f = Curvature(want.t, Wts(r)) THEN << SigNoDiag >> ELSE << >>
+InvGroupsW(r, f, want) ==
+    LET wd == [d |-> want.d, f |-> want.f]
+    IN Let1(<< IF \E n \in DOMAIN f : f[n] = DName THEN DDefects(r, want) ELSE << >>,
+               IF \E n \in DOMAIN f : f[n] = FName THEN FDefects(r, want) ELSE << >> >>,
+            LAMBDA df :
+              LET explained == (IF df[1] # << >> THEN {DName} ELSE {}) \cup (IF df[2] # << >> THEN {FName} ELSE {})
+                  rest == SelectSeq(f, LAMBDA c : c \notin explained)
+              IN [k \in 1 .. Len(df[1]) |-> [clauses |-> << DName >>, sig |-> df[1][k], want |-> wd]]
+                 \o [k \in 1 .. Len(df[2]) |-> [clauses |-> << FName >>, sig |-> df[2][k], want |-> wd]]
+                 \o (IF rest = << >> THEN << >> ELSE << [clauses |-> rest, sig |-> InvSig(r), want |-> wd] >>))
 InvGroups(r, f) ==
     IF r.form = "w_tilde" /\ ObjsOk(r) /\ ~ r.raised /\ ~ r.off
-    THEN LET want == InvWant(r)
-             ds == IF \E n \in DOMAIN f : f[n] = DName THEN DDefects(r, want) ELSE << >>
-             fs == IF \E n \in DOMAIN f : f[n] = FName THEN FDefects(r, want) ELSE << >>
-             explained == (IF ds # << >> THEN {DName} ELSE {}) \cup (IF fs # << >> THEN {FName} ELSE {})
-             rest == SelectSeq(f, LAMBDA c : c \notin explained)
-         IN [k \in 1 .. Len(ds) |-> [clauses |-> << DName >>, sig |-> ds[k], want |-> [d |-> want.d, f |-> want.f]]]
-            \o [k \in 1 .. Len(fs) |-> [clauses |-> << FName >>, sig |-> fs[k], want |-> [d |-> want.d, f |-> want.f]]]
-            \o (IF rest = << >> THEN << >> ELSE << [clauses |-> rest, sig |-> InvSig(r), want |-> [d |-> want.d, f |-> want.f]] >>)
+    THEN Let1(InvWant(r), LAMBDA want : InvGroupsW(r, f, want))
     ELSE << [clauses |-> f, sig |-> InvSig(r), want |-> Want0(r)] >>
 
 -----------------------------------------------------------------------------
@@ -143,17 +148,15 @@ InvGroups(r, f) ==
 Bound2(diff, l1) == 2 * XAbs(diff) <= l1 + 2
 MapObjOk(r, o) ==
     LET objs == r.objs
-        so == SliceOf(r.s, objs, o)
-        to == TransformMatrix(objs[o].M, Cen(r), Bl(r))
-        td == GMatVec(to, so)
-        ti == MatVec(objs[o].M, so)
         K == Len(r.b)
         W == Width(objs[o])
-    IN /\ IsGVec(r.datao[o], K) /\ IsVec(r.imageo[o], NPix(r))
-       /\ \A k \in 1 .. K :
-             /\ Bound2(r.datao[o][k][1] - td[k][1], ISum([c \in 1 .. W |-> XAbs(to[k][c][1])]))
-             /\ Bound2(r.datao[o][k][2] - td[k][2], ISum([c \in 1 .. W |-> XAbs(to[k][c][2])]))
-       /\ \A p \in 1 .. NPix(r) : Bound2(r.imageo[o][p] - ti[p], ISum([c \in 1 .. W |-> XAbs(objs[o].M[p][c])]))
+    IN \A so \in {SliceOf(r.s, objs, o)} : \A to \in {TransformMatrix(objs[o].M, Cen(r), Bl(r))} :
+       \A td \in {GMatVec(to, so)} : \A ti \in {MatVec(objs[o].M, so)} :
+          /\ IsGVec(r.datao[o], K) /\ IsVec(r.imageo[o], NPix(r))
+          /\ \A k \in 1 .. K :
+                /\ Bound2(r.datao[o][k][1] - td[k][1], ISum([c \in 1 .. W |-> XAbs(to[k][c][1])]))
+                /\ Bound2(r.datao[o][k][2] - td[k][2], ISum([c \in 1 .. W |-> XAbs(to[k][c][2])]))
+          /\ \A p \in 1 .. NPix(r) : Bound2(r.imageo[o][p] - ti[p], ISum([c \in 1 .. W |-> XAbs(objs[o].M[p][c])]))
 MapClauses(r) ==
     IF ~ ObjsOk(r) THEN << "malformed-record" >>
     ELSE IF r.raised THEN << "no-exception" >>
@@ -268,14 +271,13 @@ TraceInit == /\ i = 1
 
 Groups(r, f) == IF r.api = "inv" THEN InvGroups(r, f) ELSE << [clauses |-> f, sig |-> Sig(r), want |-> Want(r)] >>
 
+\* (bounded quantifiers over singleton sets bind VALUES: every record, its verdict and its rejection lines are computed once)
 TraceNext ==
     /\ i <= Len(Trace)
-    /\ LET r == Trace[i]
-           f == Clauses(r)
-       IN IF f = << >> THEN TRUE
-          ELSE LET g == Groups(r, f)
-               IN \A n \in 1 .. Len(g) :
-                     PrintT(ToJson([k |-> "reject", i |-> i, id |-> r.id, clauses |-> g[n].clauses, sig |-> g[n].sig, want |-> g[n].want]))
+    /\ \A r \in {Trace[i]} : \A f \in {Clauses(r)} :
+          IF f = << >> THEN TRUE
+          ELSE \A g \in {Groups(r, f)} : \A n \in 1 .. Len(g) :
+                  PrintT(ToJson([k |-> "reject", i |-> i, id |-> r.id, clauses |-> g[n].clauses, sig |-> g[n].sig, want |-> g[n].want]))
     /\ i' = i + 1
     /\ UNCHANGED vars
 
